@@ -31,7 +31,7 @@ PROPS = {
         assumptions=["messages are well-formed LDAPMessage envelopes in definite-length BER nested <= 100 levels"],
     ),
     "C11": dict(
-        groups=[("hostile", 6000, 400000), ("ber", 600, 20000)],
+        groups=[("hostile", 6000, 400000), ("ber", 600, 20000), ("conn", 300, 20000), ("faults", 120, 600)],
         rule="all 1-byte strings, all 2-byte strings under six leading octets, every single-field mutation (class, number, primitive<->constructed, "
              "emptied, element dropped/swapped/added) of every node of a 16-message corpus, length-octet mutations (+-1, +-128, 0x80..0xff, "
              "truncation) at every TLV, random bytes, nesting 2..20000 levels, the recorded witnesses. non-trivial = distinct input that is not "
@@ -109,5 +109,45 @@ PROPS = {
         trivial=["panic"],
         trusted=["translator tools/translate.py (regex over `const NAME: &str|u64 = ...;` in controls_impl/*.rs, exop_impl/*.rs, filter.rs) -> coq/gen/Consts.v"],
         assumptions=["EndTxnResp is not in the property's list (its parser expects a flattened update list; noted in DESIGN.md)", "the control list through the message envelope is C02's c02_envelope and C03's c03_from_the_wire_with_controls"],
+    ),
+    "C01": dict(
+        groups=[("conn", 600, 40000)],
+        exact_lanes=["msgid"],
+        rule="scripts of 3-16 steps over the real driver (current-thread runtime, paused clock, in-memory transport): start single/direct-search/adapted-search/abandon/unbind operations on cloned handles with and without timeouts (0, 1, 1000, 5000 ms), server responses for live, finished and unknown ids (entries, references, intermediates, done, other ops) delivered in two writes, clock advances around the deadlines, next()/finish() calls, EOF / garbage / read error / write error / partial message / handle drop; observation after EVERY step (per-op status and delivered tokens, request log, id table, routing gauges, driver result). non-trivial = distinct script in which at least one operation completed. oracle: every delivered token was sent under the operation's own id, in order",
+        trivial=[],
+        trusted=["modelled not verified: Tokio scheduler, mpsc/oneshot FIFO and close semantics, time::timeout polling the inner future first, select! as nondeterministic choice among ready branches; script-to-event mapping of the runner (ocaml/connrun.ml settle loop)"],
+        assumptions=["callers on a current-thread runtime (Start = allocate id + enqueue atomically)", "histories below the wrap-around of the 31-bit id counter (beyond it: finding F20)"],
+    ),
+    "C04": dict(
+        groups=[("faults", 264, 1600), ("conn", 300, 20000)],
+        exact_lanes=["msgid"],
+        rule="scripts of 3-16 steps over the real driver (current-thread runtime, paused clock, in-memory transport): start single/direct-search/adapted-search/abandon/unbind operations on cloned handles with and without timeouts (0, 1, 1000, 5000 ms), server responses for live, finished and unknown ids (entries, references, intermediates, done, other ops) delivered in two writes, clock advances around the deadlines, next()/finish() calls, EOF / garbage / read error / write error / partial message / handle drop; observation after EVERY step (per-op status and delivered tokens, request log, id table, routing gauges, driver result). non-trivial = distinct script in which at least one operation completed. fault lane: three fixed exchanges x every prefix x 8 fault kinds (EOF, garbage, read error, write error, partial message + EOF/error, handle drop, unbind)",
+        trivial=[],
+        trusted=["modelled not verified: Tokio scheduler, mpsc/oneshot FIFO and close semantics, time::timeout polling the inner future first, select! as nondeterministic choice among ready branches; script-to-event mapping of the runner (ocaml/connrun.ml settle loop)"],
+        assumptions=["callers on a current-thread runtime (Start = allocate id + enqueue atomically)", "histories below the wrap-around of the 31-bit id counter (beyond it: finding F20)"],
+    ),
+    "C05": dict(
+        groups=[("msgid", 400, 40000), ("conn", 300, 20000)],
+        exact_lanes=["msgid"],
+        rule="scripts of 3-16 steps over the real driver (current-thread runtime, paused clock, in-memory transport): start single/direct-search/adapted-search/abandon/unbind operations on cloned handles with and without timeouts (0, 1, 1000, 5000 ms), server responses for live, finished and unknown ids (entries, references, intermediates, done, other ops) delivered in two writes, clock advances around the deadlines, next()/finish() calls, EOF / garbage / read error / write error / partial message / handle drop; observation after EVERY step (per-op status and delivered tokens, request log, id table, routing gauges, driver result). non-trivial = distinct script in which at least one operation completed. allocator positioned by the hook around the wrap point with random in-use sets, next 1-10 allocations read from the wire",
+        trivial=[],
+        trusted=["modelled not verified: Tokio scheduler, mpsc/oneshot FIFO and close semantics, time::timeout polling the inner future first, select! as nondeterministic choice among ready branches; script-to-event mapping of the runner (ocaml/connrun.ml settle loop)"],
+        assumptions=["callers on a current-thread runtime (Start = allocate id + enqueue atomically)", "histories below the wrap-around of the 31-bit id counter (beyond it: finding F20)"],
+    ),
+    "C12": dict(
+        groups=[("conn", 600, 40000)],
+        exact_lanes=["msgid"],
+        rule="scripts of 3-16 steps over the real driver (current-thread runtime, paused clock, in-memory transport): start single/direct-search/adapted-search/abandon/unbind operations on cloned handles with and without timeouts (0, 1, 1000, 5000 ms), server responses for live, finished and unknown ids (entries, references, intermediates, done, other ops) delivered in two writes, clock advances around the deadlines, next()/finish() calls, EOF / garbage / read error / write error / partial message / handle drop; observation after EVERY step (per-op status and delivered tokens, request log, id table, routing gauges, driver result). non-trivial = distinct script in which at least one operation completed. one script in four gives every operation a timeout",
+        trivial=[],
+        trusted=["modelled not verified: Tokio scheduler, mpsc/oneshot FIFO and close semantics, time::timeout polling the inner future first, select! as nondeterministic choice among ready branches; script-to-event mapping of the runner (ocaml/connrun.ml settle loop)"],
+        assumptions=["callers on a current-thread runtime (Start = allocate id + enqueue atomically)", "histories below the wrap-around of the 31-bit id counter (beyond it: finding F20)"],
+    ),
+    "C13": dict(
+        groups=[("conn", 600, 40000)],
+        exact_lanes=["msgid"],
+        rule="scripts of 3-16 steps over the real driver (current-thread runtime, paused clock, in-memory transport): start single/direct-search/adapted-search/abandon/unbind operations on cloned handles with and without timeouts (0, 1, 1000, 5000 ms), server responses for live, finished and unknown ids (entries, references, intermediates, done, other ops) delivered in two writes, clock advances around the deadlines, next()/finish() calls, EOF / garbage / read error / write error / partial message / handle drop; observation after EVERY step (per-op status and delivered tokens, request log, id table, routing gauges, driver result). non-trivial = distinct script in which at least one operation completed. one script in four is driven to quiescence (every op answered, every stream finished); oracle: nothing reserved or routed at quiescence",
+        trivial=[],
+        trusted=["modelled not verified: Tokio scheduler, mpsc/oneshot FIFO and close semantics, time::timeout polling the inner future first, select! as nondeterministic choice among ready branches; script-to-event mapping of the runner (ocaml/connrun.ml settle loop)"],
+        assumptions=["callers on a current-thread runtime (Start = allocate id + enqueue atomically)", "histories below the wrap-around of the 31-bit id counter (beyond it: finding F20)"],
     ),
 }
